@@ -121,6 +121,23 @@ def prevOf (g : GameRec) : R (Pos × Move) :=
     | [] => .error (.panic "Friendly.GetMove: f.g.Moves[len-1]")
   | _ => .error (.panic "Friendly.GetMove: f.g.Positions[len-2]")
 
+/-- the rule check `Friendly.GetMove` starts with, on its own (used to state the theorems):
+`f.fpa.LegalMove(f.g.Positions[len-2], f.g.Moves[len-1])` when `p.MoveNumber() > 0` — the updated remembered
+squares and the verdict; nothing to check at ply 0 -/
+def prevCheck (var : Variant) (r : Rule) (g : GameRec) (p : Pos) : R (Rule × Bool) :=
+  if p.move > 0 then
+    match prevOf g with
+    | .ok (q, m) => legalMove var r (viewOfPos q) m
+    | .error e => .error e
+  else .ok (r, true)
+
+/-- what the record shows of the previous move, in the form `Tak.FPA.friendlyGetMove` (the model C20's opening
+game is built on) takes it -/
+def prevViews (g : GameRec) : Option (View × Move) :=
+  match prevOf g with
+  | .ok (q, m) => some (viewOfPos q, m)
+  | .error _ => none
+
 /-- first block of `Friendly.GetMove`:
 `if f.fpa != nil { if p.MoveNumber() > 0 { prevP, prevM := …; if err := f.fpa.LegalMove(prevP, prevM); err != nil { … } } }`.
 Returns the rule with the squares `LegalMove` remembered and, when the move was rejected, the text of the error. -/
